@@ -33,7 +33,7 @@ CLIENT = ("2001:db8::c", 40000)
 OTHERPORT = ("2001:db8::1", 5684)
 OTHERIP = ("2001:db8::2", 5683)
 
-INJ = ("ack", "rst", "resp", "ackresp-badtoken", "ack+1", "ack-1", "ack@port", "ack@ip", "rst@port", "rst+1", "rst@ip", "oldresp-non", "oldresp-con")
+INJ = ("ack", "rst", "resp", "ackresp-badtoken", "ack+1", "ack-1", "ack@port", "ack@ip", "rst@port", "rst+1", "rst@ip", "oldresp-non", "oldresp-con", "oldresp-non-samemid", "oldresp-con-samemid")
 POS = ("now", "mid", "tie")
 
 
@@ -247,6 +247,13 @@ class ConScenario(Scenario):
             return src, (rc.RST, 0, mid, b"", [], b"")
         if kind == "resp":
             return src, (rc.ACK, 69, mid, st.token, [(23, rc.block(1, False, 0))] if self.params["source"] == "block2" else [], b"ok")
+        if kind in ("oldresp-non-samemid", "oldresp-con-samemid"):
+            # ... and that response happens to carry, in the peer's own ID space, the very message ID of the CON under test: it is
+            # neither an ACK nor a Reset for it
+            if mid in st.allowed_acks:
+                st.allowed_rsts.add(mid)
+            st.allowed_acks.add(mid)
+            return src, (rc.NON if "non" in kind else rc.CON, 69, mid, st.old_token, [], b"old")
         if kind in ("oldresp-non", "oldresp-con"):
             # the separate response to the *older* request: it answers (and confirms) that one only
             if 0x7001 in st.allowed_acks:
